@@ -1,0 +1,136 @@
+// Copyright (c) 2026 10X Genomics, Inc. All rights reserved.
+
+//go:build verif
+
+package core
+
+// Hooks for the external verification harness, property C12, second group:
+// the production path of a job's resource request (Node.set*JobReqs with
+// --overrides) and the cluster-mode restart path (resetMaxJobs +
+// Node.reattachJobs) on a RemoteJobManager with --maxjobs and a caller-supplied
+// submit command.  This file is only compiled with `-tags verif`.
+
+import (
+	"strconv"
+	"time"
+)
+
+// VerifNodeJobReqs computes a job's resources the way a pipestance does:
+// Node.setSplitJobReqs / setChunkJobReqs / setJoinJobReqs on a node of the
+// given fully qualified name, with the stage's `using` resources stageRes,
+// the runtime's overrides and job managers.  jobDef is updated in place as
+// in production.
+func VerifNodeJobReqs(ljm *LocalJobManager, jm JobManager, overrides *PipestanceOverrides,
+	fqname string, local bool, stageRes, jobDef *JobResources, stageType string) JobResources {
+	rtOpts := DefaultRuntimeOptions()
+	rt := &Runtime{Config: &rtOpts, overrides: overrides, LocalJobManager: ljm, JobManager: jm}
+	node := &Node{top: &TopNode{rt: rt, fqname: fqname}, local: local, resources: stageRes}
+	switch stageType {
+	case STAGE_TYPE_SPLIT:
+		return node.setSplitJobReqs()
+	case STAGE_TYPE_JOIN:
+		return node.setJoinJobReqs(jobDef)
+	default:
+		return node.setChunkJobReqs(jobDef)
+	}
+}
+
+// VerifNewClusterJobManager returns a cluster job manager with --maxjobs
+// which submits jobs by running jobCmd jobCmdArgs... with the job script on
+// stdin (its output is the job id), as a configured job mode would.
+func VerifNewClusterJobManager(maxJobs int, jobCmd string, jobCmdArgs []string) *RemoteJobManager {
+	jm := VerifNewRemoteJobManager("#!/bin/sh\n__MRO_CMD__\n", nil)
+	jm.maxJobs = maxJobs
+	jm.config.jobCmd = jobCmd
+	jm.config.jobCmdArgs = jobCmdArgs
+	if maxJobs > 0 {
+		jm.jobSem = NewMaxJobsSemaphore(maxJobs)
+	}
+	jm.limiter = time.NewTicker(time.Millisecond)
+	return jm
+}
+
+// VerifJobSemCurrent is the number of jobs holding a --maxjobs slot (-1 without --maxjobs).
+func (self *RemoteJobManager) VerifJobSemCurrent() int {
+	if self.jobSem == nil {
+		return -1
+	}
+	return self.jobSem.Current()
+}
+
+// VerifResetMaxJobs is what ReattachToPipestance does before re-attaching.
+func (self *RemoteJobManager) VerifResetMaxJobs() { self.resetMaxJobs() }
+
+// VerifQueueJob does what Node.runJob does once the job's command line is
+// known: write the _queued_locally sentinel and the _jobinfo, then hand the
+// job to the job manager.
+func VerifQueueJob(jm JobManager, md *Metadata, res *JobResources, fqname string) error {
+	if err := md.WriteTime(QueuedLocally); err != nil {
+		return err
+	}
+	if err := md.Write(JobInfoFile, &JobInfo{Name: fqname, Type: "verif",
+		Threads: res.Threads, MemGB: res.MemGB, VMemGB: res.VMemGB}); err != nil {
+		return err
+	}
+	jm.execJob("/bin/true", nil, map[string]string{}, md, res, fqname, "main", false)
+	return nil
+}
+
+// VerifEndJob is what the fork does when it sees a job finished.
+func VerifEndJob(jm JobManager, md *Metadata) { jm.endJob(md) }
+
+// VerifFork is a stage fork (split, join, chunks) loaded from disk.
+type VerifFork struct {
+	node *Node
+	fork *Fork
+}
+
+// VerifLoadClusterFork builds the fork of a non-local stage whose metadata
+// directories are dir/split, dir/join, dir/chnk<i>, knowing only what is on
+// disk (as a restarted mrp does).
+func VerifLoadClusterFork(jm JobManager, fqname, dir string, nchunks int) (*VerifFork, error) {
+	rtOpts := DefaultRuntimeOptions()
+	rtOpts.JobMode = "verif"
+	rt := &Runtime{Config: &rtOpts, JobManager: jm}
+	node := &Node{top: &TopNode{rt: rt, fqname: fqname}}
+	mk := func(name string) (*Metadata, error) {
+		md := NewMetadata(fqname+".fork0."+name, dir+"/"+name)
+		if err := md.mkdirs(); err != nil {
+			return nil, err
+		}
+		md.loadCache()
+		return md, nil
+	}
+	fork := &Fork{node: node}
+	var err error
+	if fork.split_metadata, err = mk("split"); err != nil {
+		return nil, err
+	}
+	if fork.join_metadata, err = mk("join"); err != nil {
+		return nil, err
+	}
+	for i := 0; i < nchunks; i++ {
+		md, err := mk("chnk" + strconv.Itoa(i))
+		if err != nil {
+			return nil, err
+		}
+		fork.chunks = append(fork.chunks, &Chunk{fork: fork, index: i, metadata: md})
+	}
+	node.forks = []*Fork{fork}
+	return &VerifFork{node: node, fork: fork}, nil
+}
+
+// Metadatas returns the split, join and chunk metadata objects.
+func (self *VerifFork) Metadatas() (split, join *Metadata, chunks []*Metadata) {
+	for _, c := range self.fork.chunks {
+		chunks = append(chunks, c.metadata)
+	}
+	return self.fork.split_metadata, self.fork.join_metadata, chunks
+}
+
+// Reattach is Node.reattachJobs, what RestartRunningNodes calls for a
+// running cluster-mode stage.
+func (self *VerifFork) Reattach() error { return self.node.reattachJobs() }
+
+// VerifExists reports whether the metadata file is known to exist.
+func VerifExists(md *Metadata, name MetadataFileName) bool { return md.exists(name) }
